@@ -187,6 +187,33 @@ theorem failed_rebuild_links_clean (e : Enforcer) (s : Store) :
   show Casbin.buildRoleLinks.go (Casbin.buildRoleLinks e.rm s.g).1.clear e.store.g = Casbin.buildRoleLinks.go e.rm.clear e.store.g
   rw [hc]
 
+/-- with automatic link building **off**, a failing load leaves the role graph exactly as it was - whatever lag there is
+between it and the stored rules stays (no link is built or dropped by the error path) -/
+theorem failed_load_links_manual (e : Enforcer) (a : AdapterSt) (s : Store) (hb : e.autoBuild = false) :
+    (e.finishLoad e.store a s none).1.rm = e.rm := by
+  unfold Enforcer.finishLoad
+  simp [hb]
+
+/-- **a `save_policy` the adapter fails changes nothing the property speaks about**: rules, role graph, switches and
+log are as before; only the adapter's own state is the one it returned -/
+theorem failed_save_changes_nothing (e : Enforcer) (hf : e.adapter.filtered = false) (a : AdapterSt)
+    (hfail : e.adapter.save e.store = (a, none)) :
+    e.savePolicy.1 = { e with adapter := a } ∧ sameCore e e.savePolicy.1 ∧ (∃ k, e.savePolicy.2 = .err k) := by
+  have h1 : e.savePolicy = ({ e with adapter := a }, .err (e.adapter.saveErr e.store)) := by
+    unfold Enforcer.savePolicy
+    rw [if_neg (by rw [hf]; exact Bool.false_ne_true), hfail]
+  rw [h1]
+  exact ⟨rfl, ⟨rfl, rfl, rfl, rfl, rfl, rfl, rfl, rfl⟩, _, rfl⟩
+
+/-- … and an adapter that rejects the call (the injected error / refusal) keeps its lines and its text: the store still
+holds the old policy -/
+theorem rejected_save_keeps_store (a : AdapterSt) (s : Store) (hr : Rejecting a) :
+    (a.save s).2 = none ∧ (a.save s).1.lines = a.lines ∧ (a.save s).1.text = a.text := by
+  obtain ⟨f, rest, hp, hf⟩ := hr
+  unfold AdapterSt.save AdapterSt.nextFault
+  rw [hp]
+  rcases hf with h | h <;> subst h <;> exact ⟨rfl, rfl, rfl⟩
+
 /-! ### atomic save -/
 
 theorem read_set_same (fs : Fs) (p : String) (c : Bytes) : (fs.set p c).read p = some c := by
